@@ -264,7 +264,7 @@ def c15(tier, seed):
     for c, bmax in ((100, 100), (12, 1)):
         obs.append(Ob('scrub.md.c%d' % c, S, 'h_md', inject=[SCRUB_REGION], defs={'MD_C': c, 'MD_BMAX': bmax}, unwind=4, small_path=True, solver=KISSAT, timeout=900, mem=6, cost=10,
                       functions=sf('md'), note='divisor %d as at the call site, a symbolic 32-bit, b <= %d' % (c, bmax)))
-    return obs
+    return obs + scrubplan_obs()
 
 
 def crc_obs(tier):
@@ -1093,6 +1093,28 @@ SCRUB_PARITY_COMPARE = dict(region='scrub_parity_compare', file='cmdline/scrub.c
                             proto='static void region_scrub_parity_compare(struct snapraid_state *state, unsigned diskmax, block_off_t blockcur, void **buffer, void **buffer_recov, int block_is_unsynced, int error_on_this_block, int silent_error_on_this_block, int io_error_on_this_block, unsigned *error_p, unsigned *silent_p, int *error_on_p, int *silent_on_p)',
                             prologue='\tunsigned l;\n\tunsigned error = *error_p, silent_error = *silent_p;',
                             epilogue='\t} /* closes the block the region text opened */\n\t*error_p = error; *silent_p = silent_error; *error_on_p = error_on_this_block; *silent_on_p = silent_error_on_this_block;')
+
+
+SCRUB_PLAN_STRUCT = dict(region='scrub_plan_struct', file='cmdline/scrub.c', begin='struct snapraid_plan {', include_begin=True, end='};', end_first_after=True, include_end=True, max_lines=40, expect_loops=0,
+                         proto='/* the type the regions of state_scrub work on */', raw=True)
+SCRUB_PLAN = dict(region='scrub_plan', file='cmdline/scrub.c', scope='int state_scrub(struct snapraid_state* state, int plan, int olderthan)', begin='blockmax = parity_allocated_size(state);', include_begin=True,
+                  end='/* identify the time limit */', end_first_after=True, max_lines=50, expect_loops=0,
+                  proto='static void region_scrub_plan(struct snapraid_state *state, int plan, int olderthan, time_t now, struct snapraid_plan *ps_p, block_off_t *countlimit_p, time_t *recentlimit_p, block_off_t *blockmax_p)',
+                  prologue='\tstruct snapraid_plan ps = *ps_p;\n\tblock_off_t blockmax, countlimit;\n\ttime_t recentlimit;', epilogue='\t*ps_p = ps; *countlimit_p = countlimit; *recentlimit_p = recentlimit; *blockmax_p = blockmax;')
+SCRUB_TIMEMAP = dict(region='scrub_timemap', file='cmdline/scrub.c', scope='int state_scrub(struct snapraid_state* state, int plan, int olderthan)', begin='/* copy the info in the temp vector */',
+                     end='if (!count) {', end_first_after=True, max_lines=20, expect_loops=1,
+                     proto='static void region_scrub_timemap(struct snapraid_state *state, block_off_t blockmax, time_t *timemap, block_off_t *count_p)',
+                     prologue='\tblock_off_t i, count;', epilogue='\t*count_p = count;')
+
+
+def scrubplan_obs():
+    H = 'harness/h_scrubplan.c'
+    inj = [SCRUB_PLAN_STRUCT, SCRUB_PLAN, SCRUB_TIMEMAP]
+    return [Ob('scrub.plan.region', H, 'h_scrub_plan', inject=inj, unwind=4, small_path=True, timeout=600, mem=6, cost=3, replay=False,
+               functions=['state_scrub: region "blockmax = parity_allocated_size" .. "identify the time limit" (cmdline/scrub.c, extracted mechanically)'],
+               note='every plan / percentage 0..100 / -o value / test option / time; md and parity_allocated_size by stub (md has its own units)'),
+            Ob('scrub.timemap.region', H, 'h_scrub_timemap', inject=inj, unwind=6, small_path=True, timeout=600, mem=6, cost=3, replay=False, kind='bounded', bound='at most 4 stripes',
+               functions=['state_scrub: region "copy the info in the temp vector" (cmdline/scrub.c, extracted mechanically)'], note='every info word per stripe')]
 
 
 def scrubpar_obs():
